@@ -570,6 +570,14 @@ package dsl
 //@   property C04
 //@   ensures every_definition_goes_through_the_comment_stripper: called(Rewrite)
 
+// C04 / C14: the default rewrite of an enum keeps what it does not rewrite. The schema, every serializer and the
+// generated declarations take the integer encoding of an enum from its base type; a rewrite that changes some other
+// part of the definition (a comment stripped, a value rewritten) must hand the base type on.
+//@ func defaultRewriteImpl
+//@   property C04,C14
+//@   ensures an_enum_keeps_its_base_type: typeof(node) == *EnumDefinition && node.(*EnumDefinition) != nil && old(node.(*EnumDefinition).BaseType) != nil && typeof(result) == *EnumDefinition && result.(*EnumDefinition) != nil ==> result.(*EnumDefinition).BaseType != nil
+//@   ensures an_enum_is_rewritten_to_an_enum: typeof(node) == *EnumDefinition && node.(*EnumDefinition) != nil ==> typeof(result) == *EnumDefinition && result.(*EnumDefinition) != nil
+
 // The types of a schema are ordered by their qualified name: the order of definitions and files cannot matter.
 //@ func GetProtocolSchema$2
 //@   property C04,C12,C13
